@@ -7,10 +7,16 @@ import shutil
 import subprocess
 
 
+SYMLINK = "\x00symlink:"          # a file value SYMLINK + target makes the entry a symbolic link (to a file or a directory)
+
+
 def _write(root, files):
     for name, content in files.items():
         p = os.path.join(root, name)
         os.makedirs(os.path.dirname(p), exist_ok=True)
+        if isinstance(content, str) and content.startswith(SYMLINK):
+            os.symlink(content[len(SYMLINK):], p)
+            continue
         mode = "wb" if isinstance(content, bytes) else "w"
         with open(p, mode) as f:
             f.write(content)
